@@ -313,6 +313,10 @@ def rule_r3(ctx, rep):
     nm = ctx.world.nm
     fi = prog.func(NODE_Q + ".add_child")
     rep.touch(fi)
+    # a local bound once to the parent's own map (own = self._nsmap) stands for it: nothing add_child calls re-binds the
+    # map of the receiver (R2: namespace operations write the receiver's subtree only, and the child is not an ancestor)
+    from ..astutil import with_aliases_resolved
+    fi = with_aliases_resolved(fi, attrs={"nsmap"})
     selfp = fi.params[0]
     childp = fi.params[1]
     calls = [n for n in ast.walk(fi.node) if isinstance(n, ast.Call) and isinstance(n.func, ast.Attribute) and n.func.attr == "add_namespace"
